@@ -900,6 +900,11 @@ func (t *State) verifyDAGTxs(blockHeight int64, txs []*pb.Transaction, isRootTx 
 		}
 		txid := string(tx.GetTxid())
 		if unconfirmToConfirm[txid] == false {
+			if tx.Autogen && !tx.Coinbase && !t.isPlainAutogenTx(tx) {
+				// 非coinbase的autogen交易只能是各节点可自行重新生成并比对的定时交易, 否则会绕过下面的全部校验
+				t.log.Warn("dotx found invalid autogen tx", "txid", fmt.Sprintf("%x", tx.Txid))
+				return ErrInvalidAutogenTx
+			}
 			if t.verifyAutogenTxValid(tx) {
 				// 校验auto tx
 				if ok, err := t.ImmediateVerifyAutoTx(blockHeight, tx, isRootTx); !ok {
@@ -927,6 +932,12 @@ func (t *State) verifyDAGTxs(blockHeight int64, txs []*pb.Transaction, isRootTx 
 	}
 
 	return nil
+}
+
+// isPlainAutogenTx tells whether an auto-generated tx has the only shape nodes generate and can
+// re-generate for comparison (GetTimerTx): a read/write set and nothing that moves tokens.
+func (t *State) isPlainAutogenTx(tx *pb.Transaction) bool {
+	return t.verifyAutogenTxValid(tx) && len(tx.TxInputs) == 0 && len(tx.TxOutputs) == 0
 }
 
 // verifyAutogenTxValid verify if a autogen tx is valid, return true if tx is valid.
